@@ -2,7 +2,7 @@
 from .selftest import selftest, user_blueprints, seeded_regression
 from .rules.algebra import rule_algebra, rule_parallel
 from .rules.defassign import rule_defassign
-from .rules.dispatch import rule_dispatch, rule_stable, rule_enginefill, rule_allnanfill
+from .rules.dispatch import rule_dispatch, rule_stable, rule_enginefill, rule_allnanfill, rule_numbaminmax
 from .rules.refusals import rule_assert, rule_kwsig, rule_raise, rule_regkey
 from .rules.truthy import rule_truthy
 from .rules.purity import rule_pure, rule_args, rule_global, rule_memo, rule_getter, rule_capture, rule_options
@@ -19,7 +19,7 @@ from .rules.wiring import rule_passthrough_sort, rule_passthrough_engine, rule_c
 
 PROPERTIES = {
     "C01": {
-        "rules": [rule_dispatch, rule_stable, rule_passthrough_engine, M.rule_varshift, PR.rule_pairs_perm, PR.rule_layout, CD.rule_missingcode, PR.rule_unpermute, CD.rule_countwidth, PR.rule_forder, M.rule_varwidth, M.rule_accforward, M.rule_novalid, M.rule_castorder],
+        "rules": [rule_dispatch, rule_stable, rule_passthrough_engine, M.rule_varshift, PR.rule_pairs_perm, PR.rule_layout, CD.rule_missingcode, PR.rule_unpermute, CD.rule_countwidth, PR.rule_forder, M.rule_varwidth, M.rule_accforward, M.rule_novalid, M.rule_castorder, rule_numbaminmax],
         "thorough": [selftest, seeded_regression],
         "technique": "engine-dispatch model + sibling cross-check of kernel signatures (custom AST checker)",
         "level_text": "Static, all-paths: for every kernel name a blueprint can ask for and every engine, the implementation the dispatch "
